@@ -1024,4 +1024,6 @@ const schedRule = "; plus the SCHEDULE part (controlled scheduler, every lock/at
 	"against an unlimited queue and a reject / drop_oldest queue with room for one batch - answers and final rows must be those of some sequential order of the same requests " +
 	"(every order is run on a fresh instance), never above max_depth, never two 200 for one id where nothing is evicted; (2) one publish overlapping a live reload that toggles " +
 	"publish / publish.direct / publish.managed / max_body / existence of the route or endpoint / management labels of the route (both directions, cold and after a warming publish), " +
-	"then a publish after both finished - overlapping answer = old or new configuration, after-answer = fresh boot of the new configuration, every request all-or-nothing"
+	"then a publish after both finished - overlapping request accepted only if the old or the new configuration accepts it, after-answer = fresh boot of the new configuration, every request all-or-nothing. " +
+	"Bounds: two requests (memory, SQLite), three requests (memory) and publish||reload: EVERY interleaving (unbounded exploration with sleep-set reduction over lock/connection footprints); " +
+	"thorough adds three requests on SQLite within preemption bound 2 and every two-request scenario again without the reduction within preemption bound 3 (memory) / 2 (SQLite)"
